@@ -4,6 +4,7 @@ from __future__ import annotations
 import ast
 
 from .. import AnalysisError
+from ..absint import EvalRaise, Unknown
 from ..program import FuncInfo, ancestors, enclosing_stmt, norm, walk_local
 from . import fa, loopform
 
@@ -90,6 +91,72 @@ def check_nullspace(ctx) -> None:
         ctx.bad("C17.nullspace", fn, fn.node, "the delta_g range constraint is missing")
 
 
+def check_nullspace_shape(ctx) -> None:
+    """cobra.util.array.nullspace evaluated in the *shape domain*: numpy arrays are stand-ins that carry their shape (and
+    the matrix its rank), the singular value decomposition returns factors of the shapes numpy documents (vh is n x n
+    in full mode, min(m, n) x n in reduced mode; rank-many singular values are non-zero). Whatever the code does, the
+    result must have shape (n, n - rank): one basis vector for every dimension of the null space - in particular for a
+    matrix with more columns than rows (more reactions than metabolites), where the reduced decomposition has no rows
+    left for the null space."""
+    from ..interp import Interp
+    from ..framemodel import Ser
+
+    prog = ctx.prog
+    fn = prog.func("cobra.util.array", "nullspace")
+
+    class Arr:
+        def __init__(self, shape, rank=None):
+            self.shape, self.rank = tuple(shape), rank
+
+        @property
+        def T(self):
+            return Arr(self.shape[::-1], self.rank)
+
+        def conj(self):
+            return self
+
+        def transpose(self):
+            return self.T
+
+        def copy(self):
+            return self
+
+        def __getitem__(self, key):
+            if isinstance(key, slice):
+                return Arr((len(range(*key.indices(self.shape[0]))),) + self.shape[1:])
+            if isinstance(key, tuple) and len(key) == 2 and all(isinstance(k, slice) for k in key):
+                return Arr((len(range(*key[0].indices(self.shape[0]))), len(range(*key[1].indices(self.shape[1])))))
+            raise KeyError(key)
+
+    def svd(it_, ev, c, a, k):
+        A = a[0]
+        m, n = A.shape
+        full = k.get("full_matrices", a[1] if len(a) > 1 else True)
+        if k.get("compute_uv", True) is False:
+            return Ser([1.0] * A.rank + [0.0] * (min(m, n) - A.rank), list(range(min(m, n))))
+        kk = min(m, n)
+        return (Arr((m, m) if full else (m, kk)), Ser([1.0] * A.rank + [0.0] * (kk - A.rank), list(range(kk))), Arr((n, n) if full else (kk, n)))
+
+    stubs = {"numpy.linalg.svd": svd, "scipy.linalg.svd": svd, "numpy.atleast_2d": lambda it_, ev, c, a, k: a[0], "numpy.asarray": lambda it_, ev, c, a, k: a[0], "numpy.array": lambda it_, ev, c, a, k: a[0]}
+    problems = []
+    cases = [(2, 3, 2), (3, 3, 2), (3, 2, 2), (2, 5, 1), (4, 6, 3), (3, 3, 3), (5, 3, 1)]
+    for m, n, r in cases:
+        it = Interp(prog, (Arr, Ser), [], stubs, globals_={})
+        try:
+            out = it.call(fn, [Arr((m, n), r)], {})
+        except EvalRaise as exc:
+            problems.append(f"nullspace of a {m} x {n} matrix of rank {r} raises {exc.exc_type}")
+            continue
+        except Unknown as exc:
+            raise AnalysisError(f"C17.nullspace: nullspace() cannot be evaluated in the shape domain: {exc}")
+        if not isinstance(out, Arr) or out.shape != (n, n - r):
+            problems.append(f"for a {m} x {n} matrix of rank {r} (null space of dimension {n - r}) the result has shape {getattr(out, 'shape', out)!r} instead of ({n}, {n - r})" + (": basis vectors of the null space are missing, so part of the cycle space stays unconstrained" if isinstance(out, Arr) and len(out.shape) == 2 and out.shape[1] < n - r else ""))
+    if problems:
+        ctx.bad("C17.nullspace", fn, fn.node, problems[0] + (f" (+{len(problems) - 1} more)" if len(problems) > 1 else ""))
+    else:
+        ctx.ok("C17.nullspace", fn, "shape", f"{len(cases)} shapes (wide, square, tall; full and deficient rank): the result has one column per dimension of the null space (shape-domain evaluation)")
+
+
 def check_reported_objective(ctx) -> None:
     prog = ctx.prog
     fn = prog.func("cobra.flux_analysis.loopless", "loopless_solution")
@@ -115,10 +182,27 @@ def run(ctx) -> None:
         loopform.check_loopless_solution(ctx, "C17.formulation")
     except AnalysisError as exc:
         ctx.defer(str(exc))
+    n_before = len(ctx.findings)
     ctx.guard(loopform.check_add_loopless, ctx, "C17.formulation")
+    formulation_failed = len(ctx.findings) > n_before or bool(ctx.deferred)
     fa.check_orientation(ctx, "C17.orient", [("cobra.flux_analysis.loopless", "loopless_solution")], formulation_rule={"loopless_solution": "C17.formulation"})
     check_reported_objective(ctx)
     fa.check_cycle_free(ctx, "C17.cyclefree")
     fa.check_capture(ctx, "C17.capture", [("cobra.flux_analysis.loopless", "loopless_solution")])
-    check_nullspace(ctx)
+    # the structural reading of add_loopless explains, the evaluated formulation clause decides: a structural report
+    # is issued only when the formulation is found wrong as well (or could not be evaluated)
+    held = []
+    ctx.bad = lambda *a, **k: held.append((a, k))  # type: ignore[method-assign]
+    try:
+        check_nullspace(ctx)
+    except (AnalysisError, IndexError) as exc:
+        held.append((("C17.nullspace", None, "add_loopless", f"structural reading failed: {exc}"), {"file": "cobra/flux_analysis/loopless.py"})) if formulation_failed else None
+    finally:
+        del ctx.bad
+    for a, k in held:
+        if formulation_failed:
+            ctx.bad(*a, **k)
+        else:
+            ctx.note(f"structural reading not confirmed by the evaluated formulation (no report): {a[3] if len(a) > 3 else a}"[:300])
+    ctx.guard(check_nullspace_shape, ctx)
     fa.check_magnitude(ctx, "C17.magnitude", ["cobra.flux_analysis.loopless"])
